@@ -186,8 +186,9 @@ Definition model_scores (c : camp_case) (a : attack_obs) (w : word_obs) : list (
   | k => map (lane_score c k (ao_disc a)) (wo_hyp w)
   end.
 
-(* --- "the model separates": a first-ranked guess with margin thr over every other evaluated guess.
-   thr = (best - worst) / 8, at least max |score| / 256 (so that thr / 4 stays far above the float error of a score). *)
+(* --- "the model separates": the expected key (position i of the evaluated guesses) leads every other evaluated guess by
+   thr = (its score - the worst score) / 8, thr at least max |score| / 256 (so that thr / 4 stays far above the float error
+   of a score).  Otherwise the noise won on this small set: nothing is asserted (the campaign is discarded and counted). *)
 Definition qmin_list (d : Q) (l : list Q) : Q := fold_right (fun x a => if Qle_bool x a then x else a) d l.
 Definition qmaxabs_list (l : list Q) : Q := fold_right (fun x a => Qmax' (Qabs' x) a) 0%Q l.
 Definition nthq (l : list Q) (i : nat) : Q := nth i l 0%Q.
